@@ -40,9 +40,11 @@ template <class PT> bool check_query(vf::Ctx& c, const KdTree<PT>& tree, const P
       c.violation("KdTree.findNearestNeighbor", params(1), vf::JO().u("index", idx).num("distance", d).num("minimal", sorted[0]).done()); ok = false;
     }
   }
+  std::vector<std::vector<size_t>> ascIdx(kmax + 1); std::vector<std::vector<S>> ascD(kmax + 1);
   for (size_t k = 1; k <= kmax && ok; ++k) {
     std::vector<size_t> idx(k, (size_t)-1); std::vector<S> d(k, (S)-1);
     tree.findNearestNeighbors(q, k, idx, d);
+    ascIdx[k] = idx; ascD[k] = d;
     c.eval(); if (k > 1) c.nontrivial();
     bool good = true; std::string why;
     std::vector<size_t> seen = idx; std::sort(seen.begin(), seen.end());
@@ -56,6 +58,17 @@ template <class PT> bool check_query(vf::Ctx& c, const KdTree<PT>& tree, const P
       if (j && d[j] < d[j - 1]) { good = false; why = "not ascending"; }
     }
     if (!good) { c.violation("KdTree.findNearestNeighbors", params(k), vf::JO().str("why", why).vec("indexes", idx).vec("distances", d).vec("k_smallest", std::vector<S>(sorted.begin(), sorted.begin() + k)).done()); ok = false; }
+  }
+  // the same queries in descending order of k, then the single query again: a query must not depend on the queries before it
+  for (size_t k = kmax; k >= 1 && ok; --k) {
+    std::vector<size_t> idx(k, (size_t)-1); std::vector<S> d(k, (S)-1);
+    tree.findNearestNeighbors(q, k, idx, d);
+    c.eval();
+    if (idx != ascIdx[k] || d != ascD[k]) { c.violation("KdTree.findNearestNeighbors.dependsOnHistory", params(k), vf::JO().vec("indexes", idx).vec("distances", d).vec("indexes_ascending_pass", ascIdx[k]).vec("distances_ascending_pass", ascD[k]).done()); ok = false; }
+  }
+  if (ok) {
+    size_t idx = (size_t)-1; S d = -1; tree.findNearestNeighbor(q, idx, d); c.eval();
+    if (!(idx < n) || d != ascD[1][0]) { c.violation("KdTree.findNearestNeighbor.dependsOnHistory", params(1), vf::JO().u("index", idx).num("distance", d).num("first_answer", ascD[1][0]).done()); ok = false; }
   }
   return ok;
 }
@@ -173,7 +186,7 @@ std::string vf_describe(const std::string& tier) {
   std::vector<std::string> names; for (auto& s : kSets) names.push_back(s.name);
   o.strs("structured_sets", names);
   o.str("structured_queries", "lattice points (strided), half steps, +-1e6 along one / all axes, 2 units outside each side of the bounding box; every k in 1..min(n,50); leaf size 10");
-  o.str("oracle", "brute force in the same scalar type: reported distances equal the k smallest (ascending, 4 eps relative), each matches its indexed point, indexes in range and distinct");
+  o.str("oracle", "brute force in the same scalar type: reported distances equal the k smallest (ascending, 4 eps relative), each matches its indexed point, indexes in range and distinct; after the ascending pass over k the same queries in descending order and the single query again, bit-equal to the first answers");
   return o.done();
 }
 
